@@ -484,6 +484,92 @@ def rule_orient(ctx):
     return res.finish(3)
 
 
+def rule_precpaths(ctx):
+    """`precisions_chol` is (n_clusters, d, d).  The precision of a component is the matrix product of its factor with its
+    transpose; the element-wise square is that product only for d = 1.  A shortcut that takes the element-wise square is
+    therefore keyed on the extent of axis 1 or 2 - keyed on axis 0 (the number of *components*) it fires for one-component
+    mixtures of any dimension."""
+    res = RuleResult("R-C10-precpaths", "compute_precisions_full takes no path without the matrix product unless it is keyed on the feature extent (axes 1, 2) of the factor array")
+    F = ctx.facts()
+    fns = [f for f in gmm_fns(F) if f["d"]["name"] == "compute_precisions_full"]
+    if not fns:
+        res.missing_anchor("compute_precisions_full")
+    for fn in fns:
+        c = fn["crate"]
+        r = Render(c)
+        key = fn_key(fn)
+        res.instance(key)
+        pos0 = set()
+        for y in walk(fn["body"]):
+            if y.get("k") == "LetStmt" and y.get("init") is not None and y["pat"].get("k") == "Tuple" and any(z.get("k") == "MethodCall" and z["name"] in ("dim", "raw_dim") for z in [peel_refs(y["init"])]):
+                for b in pat_bindings(y["pat"]["pats"][0]):
+                    pos0.add(b["local"])
+            if y.get("k") == "LetStmt" and y.get("init") is not None and y["pat"].get("k") == "Bind":
+                i0 = peel_refs(y["init"])
+                if i0.get("k") == "MethodCall" and ((i0["name"] == "len_of" and any(str(peel_refs(w).get("v")) == "0" for a in i0["args"] for w in walk(a) if peel_refs(w).get("k") == "Lit")) or i0["name"] in ("len_of_axis0",)):
+                    pos0.add(y["pat"]["local"])
+                if i0.get("k") == "Field" and i0["name"] == "0" and peel_refs(i0["e"]).get("k") == "MethodCall" and peel_refs(i0["e"])["name"] == "dim":
+                    pos0.add(y["pat"]["local"])
+        bad = None
+        for y in walk(fn["body"]):
+            if y.get("k") == "If" and any(z.get("k") == "Ret" for z in walk(y["then"])):
+                rets = [z for z in walk(y["then"]) if z.get("k") == "Ret" and z.get("e") is not None]
+                no_product = [z for z in rets if not any(w.get("k") == "MethodCall" and w["name"] in ("dot", "general_mat_mul") for w in walk(z["e"]))]
+                keyed0 = any(w.get("k") == "Path" and w.get("local") in pos0 for w in walk(y["c"])) or any(w.get("k") == "Field" and w["name"] == "0" and peel_refs(w["e"]).get("k") == "MethodCall" and peel_refs(w["e"])["name"] == "dim" for w in walk(y["c"]))
+                if no_product and keyed0:
+                    bad = (y, no_product[0])
+        if bad:
+            res.violate("%s : shortcut-keyed-on-component-count" % key, "`%s` returns `%s` without the matrix product, under a test of the extent of axis 0 - the number of components, not of features: a one-component mixture of any dimension gets element-wise squares for its precision matrix" % (r.e(bad[0]["c"])[:40], r.e(bad[1]["e"])[:40]), fn_loc(fn, bad[0].get("ln")))
+        else:
+            res.ok()
+    return res.finish(1)
+
+
+def rule_covcentred(ctx):
+    """The weighted covariance of a component is sum r_i (x_i - mu)(x_i - mu)^T: both factors centred.  With one factor left
+    raw the sum is the same in exact arithmetic (weighted deviations sum to zero) and asymmetric by eps * |mu|^2 in floating
+    point; the Cholesky factorisation reads one triangle, so precisions and covariances describe different matrices."""
+    res = RuleResult("R-C10-covcentred", "both factors of the covariance product in estimate_gaussian_covariances_full are centred")
+    F = ctx.facts()
+    fns = [f for f in gmm_fns(F) if f["d"]["name"] == "estimate_gaussian_covariances_full"]
+    if not fns:
+        res.missing_anchor("estimate_gaussian_covariances_full")
+    for fn in fns:
+        c = fn["crate"]
+        r = Render(c)
+        key = fn_key(fn)
+        res.instance(key)
+        params = {b["local"]: b["name"] for p_ in fn["params"] for b in pat_bindings(p_)}
+        inits = {}
+        for y in walk(fn["body"]):
+            if y.get("k") == "LetStmt" and y.get("init") is not None and y["pat"].get("k") == "Bind":
+                inits[y["pat"]["local"]] = y["init"]
+
+        def centred(e, depth=0):
+            for z in walk(e):
+                if z.get("k") == "Binary" and z["op"] == "-" and any(w.get("k") == "MethodCall" and w["name"] in ("row", "index_axis") for w in walk(z["r"])):
+                    return True
+                if z.get("k") == "Path" and z.get("local") in inits and depth < 4 and centred(inits[z["local"]], depth + 1):
+                    return True
+            return False
+
+        def raw(e):
+            e = peel_refs(e)
+            while e.get("k") == "MethodCall" and e["name"] in ("view", "t", "reversed_axes", "to_owned"):
+                e = peel_refs(e["recv"])
+            return e.get("k") == "Path" and e.get("local") in params
+        dots = [y for y in walk(fn["body"]) if y.get("k") == "MethodCall" and y["name"] == "dot" and len(y["args"]) == 1]
+        if not dots:
+            res.undecided("%s : product" % key, "no `.dot(..)` forming the covariance (fail closed)", fn_loc(fn))
+            continue
+        bad = next((y for y in dots if (centred(y["recv"]) and raw(y["args"][0])) or (raw(y["recv"]) and centred(y["args"][0]))), None)
+        if bad is not None:
+            res.violate("%s : covariance-half-centred" % key, "`%s` multiplies centred data with the raw observations: equal to the centred product in exact arithmetic only - the result is asymmetric by eps * |mean|^2, and the Cholesky factor (which reads one triangle) belongs to another matrix than the stored covariance" % r.e(bad)[:60], fn_loc(fn, bad.get("ln")))
+        else:
+            res.ok()
+    return res.finish(1)
+
+
 def rule_mixweights(ctx):
     """The mixing weights are column sums of the responsibilities divided by the number of samples: they sum to one because
     every row of the responsibilities does (exp of log-responsibilities normalised by the row's log-sum-exp).  What is
@@ -552,7 +638,7 @@ def rules(tier):
     from . import carry, c04
     from . import extrema
     from . import precision
-    return [rule_mixweights, rule_refresh, rule_err, rule_lse, rule_posterior, rule_memorder, rule_incumbent, rule_orient, rule_reg,
+    return [rule_precpaths, rule_covcentred, rule_mixweights, rule_refresh, rule_err, rule_lse, rule_posterior, rule_memorder, rule_incumbent, rule_orient, rule_reg,
             carry.make_clone_rule("R-C10-clone", {"linfa_clustering"}, 10), carry.make_setter_rule("R-C10-override", {"linfa_clustering"}, 10), c04.make_carry_rule("R-C10-carry", {"GmmParams"}, 6),
             extrema.make_rule("R-C10-extrema", "the row maximum the mixture's log-sum-exp is shifted by is a real maximum: the fold starts from -infinity / min_value or from data", lambda f: f["d"]["krate"] == "linfa_clustering" and "gaussian_mixture" in f["d"]["path"] + " " + (f["d"].get("self_adt") or "") or (f["d"]["krate"] == "linfa_clustering" and "GaussianMixture" in (f["d"].get("self_adt") or "")), 1, "the max fold of the log-sum-exp shift in GaussianMixtureModel"),
             precision.make_rule("R-C10-precision", lambda f: f["d"]["krate"] == "linfa_clustering" and any(x in f["d"]["path"] + " " + (f["d"].get("self_adt") or "") for x in ("gaussian_mixture", "GaussianMixture", "Gmm")), 35, "linfa-clustering gaussian_mixture"),
